@@ -30,8 +30,33 @@ import (
 type Violation struct {
 	Property string `json:"property"`
 	Oracle   string `json:"oracle"`
+	Key      string `json:"key,omitempty"` // what specifically fails (input class / call site), used to tell findings apart
 	Msg      string `json:"msg"`
 	Step     int    `json:"step"`
+}
+
+// Finding is one entry of /verif/known_findings.json.
+type Finding struct {
+	ID       string `json:"id"`
+	Property string `json:"property"`
+	Oracle   string `json:"oracle"`
+	Key      string `json:"key"`    // substring of the violation key ("" matches any)
+	Status   string `json:"status"` // "open" suppresses; "fixed" suppresses nothing
+	Commit   string `json:"commit,omitempty"`
+	What     string `json:"what"`
+}
+
+// KnownFindings is loaded once per process (never written).
+var KnownFindings []Finding
+
+func matchFinding(prop, oracle, key string) *Finding {
+	for i := range KnownFindings {
+		f := &KnownFindings[i]
+		if f.Status == "open" && f.Property == prop && f.Oracle == oracle && strings.Contains(key, f.Key) {
+			return f
+		}
+	}
+	return nil
 }
 
 // Env is one simulated world.
@@ -53,7 +78,10 @@ type Env struct {
 	Viol       *Violation
 	HarnessErr string
 	OutOfSteps bool
+	Aborted    string // the run was cut short for a reason that is another property's concern
+	Livelock   string // a single goroutine ran for LivelockSteps consecutive steps
 	stop       bool
+	LivelockSteps int
 
 	seq      int
 	digest   hash.Hash
@@ -61,6 +89,7 @@ type Env struct {
 	t0       time.Time
 	Probes   map[string]int
 	Faults   map[string]int
+	Known    map[string]int // known finding id -> times seen in this run
 
 	calls []*Call
 	// TimeJitter, if >0, offers explicit time steps as schedulable actions.
@@ -87,7 +116,7 @@ type ClientInst struct {
 }
 
 func NewEnv(sim *simrt.Sim, sch *Schema, property string) (*Env, error) {
-	e := &Env{Sim: sim, Sch: sch, Property: property, Servers: map[string]*ServerInst{}, digest: sha256.New(), t0: time.Now(), Probes: map[string]int{}, Faults: map[string]int{}, MaxSteps: 200000, MaxSim: 30 * time.Minute}
+	e := &Env{Sim: sim, Sch: sch, Property: property, Servers: map[string]*ServerInst{}, digest: sha256.New(), t0: time.Now(), Probes: map[string]int{}, Faults: map[string]int{}, Known: map[string]int{}, MaxSteps: 200000, MaxSim: 30 * time.Minute, LivelockSteps: 25000}
 	var err error
 	e.LibSch, err = sch.LibSchema()
 	if err != nil {
@@ -137,11 +166,23 @@ func (e *Env) LogTail(n int) []string {
 
 // Violate records the first violation and stops the run.
 func (e *Env) Violate(oracle, format string, a ...any) {
+	e.ViolateK(oracle, "", format, a...)
+}
+
+// ViolateK is Violate with a key that says what specifically fails. A
+// violation listed (open) in known_findings.json is counted and the run goes
+// on, so that it cannot hide a different violation.
+func (e *Env) ViolateK(oracle, key, format string, a ...any) {
 	if e.Viol != nil {
 		return
 	}
-	e.Viol = &Violation{Property: e.Property, Oracle: oracle, Msg: fmt.Sprintf(format, a...), Step: e.Sim.Stats.Steps}
-	e.Logf("VIOLATION %s: %s", oracle, e.Viol.Msg)
+	if f := matchFinding(e.Property, oracle, key); f != nil {
+		e.Known[f.ID]++
+		e.Logf("known finding %s (%s %s): %s", f.ID, oracle, key, trimStr(fmt.Sprintf(format, a...), 300))
+		return
+	}
+	e.Viol = &Violation{Property: e.Property, Oracle: oracle, Key: key, Msg: fmt.Sprintf(format, a...), Step: e.Sim.Stats.Steps}
+	e.Logf("VIOLATION %s [%s]: %s", oracle, key, e.Viol.Msg)
 	e.stop = true
 }
 
@@ -383,6 +424,7 @@ func (e *Env) extra() []simrt.Action {
 // (nothing enabled and no timer fires within the remaining time budget).
 func (e *Env) RunUntil(cond func() bool) bool {
 	idleStreak := 0
+	sameKey, sameN := "", 0
 	for {
 		if e.stop {
 			return false
@@ -401,6 +443,15 @@ func (e *Env) RunUntil(cond func() bool) bool {
 		}
 		if key != "" {
 			idleStreak = 0
+			if key == sameKey && strings.HasPrefix(key, "run:") {
+				sameN++
+				if sameN > e.LivelockSteps {
+					e.Livelock = key
+					return false
+				}
+			} else {
+				sameKey, sameN = key, 0
+			}
 			continue
 		}
 		// nothing enabled: let simulated time pass
@@ -418,6 +469,16 @@ func (e *Env) RunUntil(cond func() bool) bool {
 			idleStreak = 0
 		}
 	}
+}
+
+// Abort ends the run quietly (not a violation, not a harness error).
+func (e *Env) Abort(why string) {
+	if e.Aborted == "" {
+		e.Aborted = why
+		e.Logf("run aborted: %s", why)
+	}
+	e.Probes["aborted"]++
+	e.stop = true
 }
 
 // Quiet reports whether nothing is runnable and nothing is in flight.
